@@ -66,8 +66,13 @@ func genC16() *rapid.Generator[c16Case] {
 				c16Op{Op: "close", Slot: 1}, c16Op{Op: "close", Slot: 2})
 		}
 		for i := 0; i < n; i++ {
-			k := unif(t, "op", 20)
+			k := unif(t, "op", 22)
 			switch {
+			case k >= 20:
+				// a Close that fails before publishing (its ".tmp" vanished: a reaper,
+				// a sick disk): the owner cleans up later ("abort"), other writers run
+				// in between
+				c.Ops = append(c.Ops, c16Op{Op: "failclose", Slot: unif(t, "slot", 4)})
 			case k < 5:
 				op := c16Op{Op: "create", Slot: unif(t, "slot", 4), Payload: unif(t, "payload", 5)}
 				for j := rapid.IntRange(0, 3).Draw(t, "ndraws"); j > 0; j-- {
@@ -139,6 +144,7 @@ type c16Writer struct {
 	payload int
 	written []byte
 	doomed  bool
+	closeFailed bool // Close returned an error; Abort + TombstoneFile still to come
 }
 
 type c16File struct {
@@ -292,9 +298,25 @@ func runC16(c c16Case) *Violation {
 			model[p] = &c16File{state: "open", inc: incs}
 			history = append(history, c16Ptr{p, incs})
 			slots[op.Slot] = &c16Writer{w: w, path: p, inc: incs, payload: op.Payload % len(payloads)}
+		case "failclose":
+			s := slots[op.Slot]
+			if s == nil || s.doomed || s.closeFailed {
+				continue
+			}
+			os.Remove(strings.TrimSuffix(s.path, ".dat") + ".tmp")
+			if err := s.w.Close(); err != nil {
+				// not published; the pointer stays the writer's (reserved) until its
+				// owner aborts and tombstones it
+				s.closeFailed = true
+				Ev.Class("close-failed-before-publish(cleanup-later)")
+			} else {
+				// Close claims success: then the file must hold what was written
+				slots[op.Slot] = nil
+				model[s.path] = &c16File{state: "closed", inc: s.inc, data: append([]byte(nil), s.written...), valid: validPayload[s.payload] && len(s.written) == len(payloads[s.payload])}
+			}
 		case "write":
 			s := slots[op.Slot]
-			if s == nil {
+			if s == nil || s.closeFailed {
 				continue
 			}
 			rest := payloads[s.payload][len(s.written):]
@@ -309,7 +331,7 @@ func runC16(c c16Case) *Violation {
 			s.written = append(s.written, chunk...)
 		case "close":
 			s := slots[op.Slot]
-			if s == nil {
+			if s == nil || s.closeFailed {
 				continue
 			}
 			slots[op.Slot] = nil
@@ -346,6 +368,10 @@ func runC16(c c16Case) *Violation {
 				return violf("FileSystemDataStore writer does not implement Abort")
 			}
 			model[s.path].state = "gone"
+			if s.closeFailed {
+				// the owner's cleanup after a failed Close: Abort, then TombstoneFile
+				fs.TombstoneFile(ctx, []byte(s.path))
+			}
 			// the engine tombstones the pointer right after an abort, possibly
 			// later: modelled by the separate tombstone op on the history
 		case "tombstone":
@@ -525,7 +551,7 @@ func runC16(c c16Case) *Violation {
 }
 
 func TestC16(t *testing.T) {
-	Ev.Rule = "case = 3-25 operations over up to 4 simultaneously open writers of one FileSystemDataStore in a temp dir: CreateFile with the candidate names forced from a 3-name pool through the verif hook (then fresh names), chunked Write of a complete / partial valid bloom file, of garbage or of nothing, Close, Abort, TombstoneFile of any earlier pointer whose writer has ended (as the engine does, including after another writer re-used the name), OpenFile, directory scan, redundant Close/Abort/Write calls on a writer whose Close already succeeded (documented as harmless), and bursts of 2-6 parallel CreateFile calls on the same forced names. Oracle: model map path -> open / closed(bytes) / gone; after EVERY operation: every non-empty .dat on disk is a closed file, every closed file has exactly the bytes written, no open writer's file is visible, CreateFile never returns a live pointer, parallel CreateFiles return distinct pointers, OpenFile returns the exact bytes, TombstoneFile leaves no .dat/.tmp of its pointer, GetMaybeFilesForQuery(nil) lists exactly the closed valid bloom files. Non-trivial: a forced name collided with a live (open or closed) file; distinct by case."
+	Ev.Rule = "case = 3-25 operations over up to 4 simultaneously open writers of one FileSystemDataStore in a temp dir: CreateFile with the candidate names forced from a 3-name pool through the verif hook (then fresh names), chunked Write of a complete / partial valid bloom file, of garbage or of nothing, Close, Abort, TombstoneFile of any earlier pointer whose writer has ended (as the engine does, including after another writer re-used the name), OpenFile, directory scan, a Close made to fail before publishing (its .tmp removed) whose owner aborts and tombstones only later, redundant Close/Abort/Write calls on a writer whose Close already succeeded (documented as harmless), and bursts of 2-6 parallel CreateFile calls on the same forced names. Oracle: model map path -> open / closed(bytes) / gone; after EVERY operation: every non-empty .dat on disk is a closed file, every closed file has exactly the bytes written, no open writer's file is visible, CreateFile never returns a live pointer, parallel CreateFiles return distinct pointers, OpenFile returns the exact bytes, TombstoneFile leaves no .dat/.tmp of its pointer, GetMaybeFilesForQuery(nil) lists exactly the closed valid bloom files. Non-trivial: a forced name collided with a live (open or closed) file; distinct by case."
 	Ev.Assumptions = []string{"call sequences respect the DataStore contract the engine itself follows (one goroutine per writer, Close or Abort ends it, TombstoneFile only after the writer ended)", "a Close that fails is allowed; the file is then treated as never published"}
 	runChecks(t, "ops", 500, 20000, genC16(), runC16)
 }
